@@ -1,5 +1,6 @@
 import CarModel.Proofs.Inspect
 import CarModel.Proofs.V2
+import CarModel.Proofs.InspectConv
 /-
 C13 — Inspection reports exactly what a full scan finds.
 -/
@@ -21,6 +22,24 @@ theorem scan_implies_inspect (H : HashFn) (hU : H.Uniform) (o : ReadOpts) (ht : 
         = .ok ((bs.zip lens).map fun p => ⟨p.1.cid, p.2, p.1.data.length⟩) := by
   have := scan_implies_inspectLoop H hU o ht hcap (w.length + 1) w bs [] h
   simpa using this
+
+/-- (1') **The converse**, for every byte string: if Inspect's full-validation walk over `w`
+    succeeds, the hash-verifying section scan of `w` ends cleanly and returns exactly the blocks
+    Inspect saw (same CIDs, same CID lengths, same data lengths). With (1): inspection of the
+    section part succeeds iff the verifying scan succeeds, and they see the same content. -/
+theorem inspect_implies_scan (H : HashFn) (hU : H.Uniform) (o : ReadOpts) (ht : o.trusted = false)
+    (w : Bytes) (res : List Seen) (h : inspectLoop H o true (w.length + 1) w [] = .ok res) :
+    ∃ (bs : List Block) (lens : List Nat), lens.length = bs.length ∧
+      scanSections H o w = (bs, .eof) ∧
+      res = (bs.zip lens).map fun p => ⟨p.1.cid, p.2, p.1.data.length⟩ := by
+  obtain ⟨bs, lens, hl, hs, hr⟩ := inspectLoop_implies_scan H hU o ht (w.length + 1) w [] res (by omega) h
+  exact ⟨bs, lens, hl, hs, by simpa using hr⟩
+
+/-- (1'') the decoders agree the other way round, too -/
+theorem decoders_agree_conv (s : Bytes) (n : Nat) (c : Cid) (rest : Bytes) (len : Nat)
+    (h : cidFromReader s = .ok (n, c, rest)) (hn : n ≤ len) (hl : len ≤ s.length) :
+    cidFromBytes (s.take len) = .ok (n, c) ∧ rest = s.drop n :=
+  cidFromBytes_of_cidFromReader s n c rest len h hn hl
 
 /-- (1a) The two CID decoders used by the scan (`CidFromBytes`) and by Inspect (`CidFromReader`)
     agree on every accepted buffer. -/
